@@ -37,7 +37,12 @@ def main():
     try:
         for p in props:
             t0 = time.time()
+            # the evidence file describes runs on the unchanged tree: keep it out of the seeded run
+            evf = os.path.join(ROOT, 'evidence', p + '.json')
+            saved = open(evf).read() if os.path.exists(evf) else None
             r = sh([os.path.join(ROOT, 'check'), p, tier], cwd=ROOT)
+            if saved is not None:
+                open(evf, 'w').write(saved)
             viol = [l for l in r.stdout.splitlines() if l.startswith('VIOLATION')]
             summ = [l for l in r.stdout.splitlines() if l.startswith('[' + p)]
             replay = None
